@@ -46,10 +46,11 @@ def run_config(chk, config):
             if len(pushes) != 1:
                 info["probs"].append("an iteration pushes %d results for one parsed AVP header" % len(pushes))
                 continue
-            if len(reads) < 4:
+            hv = AvpHeaderView(eng, b, reads)
+            if not hv.ok:
                 info["probs"].append("an iteration continues without having parsed a 6-octet header")
                 continue
-            vendor = reads[2][3]
+            vendor = VInt(None, hv.vendor)
             vi, p = result_parts(pushes[0][2])
             if vi == 0:
                 info["ok_push"] += 1
@@ -60,7 +61,7 @@ def run_config(chk, config):
                 if nm == "UnsupportedVendorId":
                     info["vendor_err"] += 1
                     x = p.variants[p.vidx.c][0]
-                    if not (isinstance(x, VInt) and x.lin == vendor.lin):
+                    if not (isinstance(x, VInt) and eng.ent(b, c_eq(x.lin, vendor.lin))):
                         info["probs"].append("UnsupportedVendorId does not carry the vendor id")
                 elif eng.ent(b, (vendor.lin, "ne")):
                     info["probs"].append("a vendor-specific AVP yields %s instead of UnsupportedVendorId" % nm)
@@ -131,6 +132,39 @@ def run_config(chk, config):
                 else:
                     break
     eng.hooks["call"] = on_call
+    loopfacts = []
+    hand_ok = 0
+
+    def on_ret(frame, st, rv):
+        if frame.key == a.avp_greedy["key"] and isinstance(rv, VRef):
+            st.ghost = dict(st.ghost)
+            st.ghost["greedy_result"] = rv.cell
+
+    def on_tr_loop(frame, head, H, res, havoc, lid):
+        # per-iteration discipline of a hand-written loop over the greedy result vector
+        if eng.mute or frame.key != a.ctrl_try_read["key"]:
+            return
+        src = H.ghost.get("greedy_result")
+        for b in res["back"]:
+            evs = b.events()[H.ntrace:]
+            nx = [e for e in evs if e[0] == "iter_next"]
+            ps = [e for e in evs if e[0] == "push"]
+            good = len(nx) == 1 and nx[0][2] == src and len(ps) == 1
+            if good:
+                vi, pay = result_parts(ps[0][2]) if isinstance(ps[0][2], VAdt) else (None, None)
+                # which variant was the element on this path?
+                vv = b.cells.get(src)
+                rn = [e for e in evs if e[0] == "range_next"]
+                if isinstance(vv, VVec) and rn:
+                    el = "%s[%r]" % (vv.name, rn[-1][4])
+                    is_ok = eng.ent(b, c_eq(Lin.sym(el + "#v"), Lin.const(0)))
+                    is_err = eng.ent(b, c_eq(Lin.sym(el + "#v"), Lin.const(1)))
+                    good = is_ok or is_err
+                    loopfacts.append(((frame.key, head), good, ps[0][1], is_ok))
+                    continue
+            loopfacts.append(((frame.key, head), False, None, None))
+    eng.hooks["return"] = on_ret
+    eng.hooks["loop"] = on_tr_loop
     rets = eng.analyse(a.ctrl_try_read["key"], name="ControlMessage::try_read[%s]" % config)
     record_engine(chk, eng, "ControlMessage::try_read [%s]: %d paths" % (config, len(rets)))
     mt_idx = [i for i, (n, k, t) in enumerate(a.variants) if n == "MessageType"][0]
@@ -153,10 +187,34 @@ def run_config(chk, config):
             if not tested:
                 # no recognised all-ok idiom (any(is_err) / all(is_ok)).  If the function walks the result vector in a
                 # loop of its own, the test is present but not of a recognised shape: undecided, not an alarm.
-                firsts = [e for e in evs if e[0] == "first"]
-                walked = [e for e in evs if e[0] == "iter_next" and e[1] in ("vec", "slice")]
                 done = [l for l in st.ghost.get("loops_done", ()) if l[0] == a.ctrl_try_read["key"]]
                 if done:
+                    # hand-written partition loop.  Counting argument: every iteration takes one element of the result
+                    # vector and pushes it to exactly one list, Ok payloads only to the accepted list; so an accepted
+                    # list as long as the result vector means every element was Ok, and a shorter one means a record
+                    # was dropped.  Decided when the loop's conserved-sum invariant settles the lengths; otherwise noted
+                    # as undecided (never an alarm).
+                    src = st.ghost.get("greedy_result")
+                    vv = st.cells.get(src) if src is not None else None
+                    if isinstance(vv, VVec) and isinstance(avps, VVec):
+                        if eng.ent(st, c_eq(avps.len, vv.len)):
+                            bad_it = [x for x in loopfacts if x[0] == done[-1]]
+                            if any(not x[1] for x in bad_it) or not bad_it:
+                                undecided.append("partition loop: per-iteration push discipline not established")
+                            else:
+                                hand_ok += 1
+                            if not eng.ent(st, c_eq(vv.len, Lin.const(0))):
+                                e0 = "%s[0]" % vv.name
+                                ex = [c_eq(Lin.sym(e0 + "#v"), Lin.const(0))]
+                                if layout.conj_feasible(eng, st, ex) and not layout.conj_entails(eng, st, ex, c_eq(Lin.sym(e0 + ".Ok.0#v"), Lin.const(mt_idx))):
+                                    probs.append("a non-empty message is accepted without its first AVP being pinned to Ok(MessageType)")
+                            else:
+                                n_zlb += 1
+                            continue
+                        if eng.ent(st, c_le(avps.len + 1, vv.len)):
+                            probs.append("the accepted AVP list is shorter than the list of decoded records on an accepting path: a record "
+                                         "(decoded or not) is dropped without being reported (path %s)" % st.notes()[-3:])
+                            continue
                     undecided.append("acceptance test over the AVP results is a hand-written loop (not decided)")
                     continue
                 probs.append("a message is accepted without an all-ok test over its AVP results")
@@ -200,6 +258,7 @@ def run_config(chk, config):
         chk.notes.append("undecided clause (C15): " + u)
     if undecided and not probs:
         n_zlb = max(n_zlb, 1)
+    chk.extra["partition_loop_accept_paths_decided"] = chk.extra.get("partition_loop_accept_paths_decided", 0) + hand_ok
     tclauses = [
         ("all-ok test over the AVP results", lambda p: "all-ok test" in p or "is not excluded" in p, n_ok >= 1),
         ("first AVP is a Message Type or the body is empty (ZLB accepted)", lambda p: "first AVP" in p, n_zlb >= 1),
